@@ -345,6 +345,18 @@ func (s *IndexedState) add(ctx *Context, id string, x Map) (string, error) {
 		if err != nil {
 			Log(ERROR, ctx, "IndexedState.add", "state", s.Name, "error", err,
 				"when", "addHook")
+			// The stored fact stays, so undo what we did to
+			// the rule index.
+			if rule != nil {
+				if _, scheduled := rule["schedule"]; !scheduled {
+					s.unindexRule(ctx, id, rule)
+				}
+			}
+			if oldRule != nil {
+				if _, scheduled := oldRule["schedule"]; !scheduled {
+					s.indexRule(ctx, id, oldRule)
+				}
+			}
 			return "", err
 		}
 	}
